@@ -479,10 +479,12 @@ impl Server {
     
     /// Wake up a specific blocked client with data
     fn wake_client(&self, wakeup: WakeupRequest) -> Result<()> {
-        // Perform atomic pop based on the operation type
+        // Perform atomic pop based on the operation type. A key that holds another type by now has
+        // nothing to pop: that is an empty list for this purpose (the client is registered again
+        // below), not an error that may leave the event loop and end the server
         let value = match wakeup.op_type {
-            super::connection::BlockingOp::BLPop => self.storage.lpop(wakeup.db, &wakeup.key)?,
-            super::connection::BlockingOp::BRPop => self.storage.rpop(wakeup.db, &wakeup.key)?,
+            super::connection::BlockingOp::BLPop => self.storage.lpop(wakeup.db, &wakeup.key).unwrap_or(None),
+            super::connection::BlockingOp::BRPop => self.storage.rpop(wakeup.db, &wakeup.key).unwrap_or(None),
             super::connection::BlockingOp::XReadBlock(_) => {
                 // XReadBlock not implemented yet, skip for now
                 return Ok(());
